@@ -22,6 +22,7 @@ fn inputs() -> Vec<String> {
 fn run(name: &str, f: fn(&Case) -> R) -> Option<(Case, &'static str, u64)> {
     let mut count = 0u64;
     for input in inputs() {
+        if !uses(name, "input") && !input.is_empty() { continue; }
         let mut buf = [0u8; MAXLEN];
         buf[..input.len()].copy_from_slice(input.as_bytes());
         for start in 0..=input.len() {
@@ -39,9 +40,11 @@ fn run(name: &str, f: fn(&Case) -> R) -> Option<(Case, &'static str, u64)> {
                                 if !uses(name, "c2") && c2 != *c { continue; }
                                 if !uses(name, "lit") && !lit.is_empty() { continue; }
                                 if !uses(name, "n") && n > 0 { continue; }
-                                let case = Case { buf, len: input.len(), start, far, c: *c, c2, lit: l, lit_len: lit.len(), n };
-                                count += 1;
-                                if let Err(why) = f(&case) { return Some((case, why, count)); }
+                                for (k1, k2, k3) in keys(name) {
+                                    let case = Case { buf, len: input.len(), start, far, c: *c, c2, lit: l, lit_len: lit.len(), n, k1, k2, k3 };
+                                    count += 1;
+                                    if let Err(why) = f(&case) { return Some((case, why, count)); }
+                                }
                             }
                         }
                     }
@@ -53,24 +56,40 @@ fn run(name: &str, f: fn(&Case) -> R) -> Option<(Case, &'static str, u64)> {
     None
 }
 
+/// memo-table keys worth trying: small offsets, around powers of two and typical table sizes, the extremes
+fn keys(name: &str) -> Vec<(usize, usize, usize)> {
+    if name != "CacheEntries" { return vec![(0, 0, 0)]; }
+    let mut ks: Vec<usize> = (0..10).collect();
+    for sh in [4usize, 5, 6, 7, 8, 9, 10, 11, 12, 13, 14, 15, 16, 20, 24, 31, 32, 33, 48, 63] {
+        let p = 1usize << sh;
+        ks.extend([p - 1, p, p + 1, p + 3]);
+    }
+    ks.extend([1000, 1023, 1024 + 7, 2048 + 7, 4096 + 7, 65536 + 7, usize::MAX, usize::MAX - 1, usize::MAX / 2]);
+    ks.sort(); ks.dedup();
+    let mut v = vec![];
+    for &a in &ks { for &b in &ks { v.push((a, b, a ^ b ^ 5)); } }
+    v
+}
+
 fn uses(name: &str, dim: &str) -> bool {
     match dim {
         "c" => matches!(name, "parse_character_literal" | "parse_character_range" | "parse_character_literal_insensitive"),
         "c2" => name == "parse_character_range",
         "lit" => matches!(name, "parse_string_literal" | "parse_string_literal_insensitive" | "ChoiceHelper::choice"),
-        "n" => matches!(name, "ParseState::advance_safe" | "ParseState::advance" | "ParseState::slice_until" | "ParseState::record_error" | "ChoiceHelper::choice"),
+        "input" => name != "CacheEntries",
+        "n" => matches!(name, "ParseState::first_n_chars" | "ParseState::advance_safe" | "ParseState::advance" | "ParseState::slice_until" | "ParseState::record_error" | "ChoiceHelper::choice"),
         _ => true,
     }
 }
 
 fn kv(case: &Case) -> String {
     let j = |b: &[u8]| b.iter().map(|x| x.to_string()).collect::<Vec<_>>().join(",");
-    format!("buf={} len={} start={} far={} c={} c2={} lit={} litlen={} n={}", j(&case.buf), case.len, case.start,
-        case.far.map(|f| f.to_string()).unwrap_or("none".into()), case.c as u32, case.c2 as u32, j(&case.lit), case.lit_len, case.n)
+    format!("buf={} len={} start={} far={} c={} c2={} lit={} litlen={} n={} k1={} k2={} k3={}", j(&case.buf), case.len, case.start,
+        case.far.map(|f| f.to_string()).unwrap_or("none".into()), case.c as u32, case.c2 as u32, j(&case.lit), case.lit_len, case.n, case.k1, case.k2, case.k3)
 }
 
 fn parse_kv(args: &[String]) -> Case {
-    let mut case = Case { buf: [0; MAXLEN], len: 0, start: 0, far: None, c: 'a', c2: 'a', lit: [0; 3], lit_len: 0, n: 0 };
+    let mut case = Case { buf: [0; MAXLEN], len: 0, start: 0, far: None, c: 'a', c2: 'a', lit: [0; 3], lit_len: 0, n: 0, k1: 0, k2: 0, k3: 0 };
     let bytes = |v: &str| -> Vec<u8> { v.split(',').filter(|x| !x.is_empty()).map(|x| x.parse().unwrap()).collect() };
     for a in args {
         let (k, v) = a.split_once('=').expect("k=v");
@@ -84,6 +103,9 @@ fn parse_kv(args: &[String]) -> Case {
             "lit" => { let b = bytes(v); case.lit[..b.len()].copy_from_slice(&b); }
             "litlen" => case.lit_len = v.parse().unwrap(),
             "n" => case.n = v.parse().unwrap(),
+            "k1" => case.k1 = v.parse().unwrap(),
+            "k2" => case.k2 = v.parse().unwrap(),
+            "k3" => case.k3 = v.parse().unwrap(),
             _ => panic!("unknown key"),
         }
     }
@@ -92,9 +114,9 @@ fn parse_kv(args: &[String]) -> Case {
 
 fn show(case: &Case) -> String {
     let esc = |s: &str| s.chars().map(|c| if c == '"' || c == '\\' { format!("\\{c}") } else if (c as u32) < 0x20 { format!("\\u{:04x}", c as u32) } else { c.to_string() }).collect::<String>();
-    format!("{{\"input\":\"{}\",\"input_bytes\":{:?},\"start\":{},\"recorded_error_at\":{},\"c\":\"U+{:04X}\",\"c2\":\"U+{:04X}\",\"literal_bytes\":{:?},\"n\":{}}}",
+    format!("{{\"input\":\"{}\",\"input_bytes\":{:?},\"start\":{},\"recorded_error_at\":{},\"c\":\"U+{:04X}\",\"c2\":\"U+{:04X}\",\"literal_bytes\":{:?},\"n\":{},\"cache_keys\":[{},{},{}]}}",
         esc(&String::from_utf8_lossy(&case.buf[..case.len])), &case.buf[..case.len], case.start,
-        case.far.map(|f| f.to_string()).unwrap_or("null".into()), case.c as u32, case.c2 as u32, &case.lit[..case.lit_len], case.n)
+        case.far.map(|f| f.to_string()).unwrap_or("null".into()), case.c as u32, case.c2 as u32, &case.lit[..case.lit_len], case.n, case.k1, case.k2, case.k3)
 }
 
 fn main() {
